@@ -358,20 +358,29 @@ macro_rules! impl_tryfrom_integer {
                             if matches!(e, lexical_core::Error::InvalidDigit(_)) {
                                 let value = lexical_core::parse::<$intermediate>(value)?;
 
-                                if !value.is_normal() {
+                                // <f32|f64>::round() doesn't exist in no_std: round half away from zero by
+                                // adding +-0.5 and truncating. Values at or beyond 2^(mantissa bits) are
+                                // already integral (adding 0.5 there would round to even instead).
+                                const INTEGRAL: $intermediate =
+                                    (1u64 << (<$intermediate>::MANTISSA_DIGITS - 1)) as $intermediate;
+                                let rounded = if value >= INTEGRAL || value <= -INTEGRAL {
+                                    value
+                                } else if value.is_sign_negative() {
+                                    value - 0.5
+                                } else {
+                                    value + 0.5
+                                };
+                                // `MAX as float + 1.0` is exactly 2^bits (resp. 2^(bits-1)); the difference
+                                // to MIN is exact close to the bound, so both comparisons are sharp.
+                                if value.is_nan() {
                                     Err(lexical_core::Error::Overflow(0).into())
-                                } else if value > (<$from>::MAX as $intermediate) {
+                                } else if rounded >= (<$from>::MAX as $intermediate) + 1.0 {
                                     Err(lexical_core::Error::Overflow(0).into())
-                                } else if value < (<$from>::MIN as $intermediate) {
+                                } else if rounded - (<$from>::MIN as $intermediate) <= -1.0 {
                                     Err(lexical_core::Error::Underflow(0).into())
                                 } else {
-                                    // <f32|f64>::round() doesn't exist in no_std...
-                                    // Safe because value is checked to be normal and within bounds earlier
-                                    if value.is_sign_positive() {
-                                        Ok(unsafe { (value + 0.5).to_int_unchecked() })
-                                    } else {
-                                        Ok(unsafe { (value - 0.5).to_int_unchecked() })
-                                    }
+                                    // In range: the cast truncates toward zero and cannot saturate
+                                    Ok(rounded as $from)
                                 }
                             } else {
                                 Err(e)
